@@ -31,7 +31,7 @@ from fsa.match import (
     str_eq_test,
 )
 from fsa.source import AnchorMissing, Unsupported, iter_own_nodes, stmt_key, text
-from rules.solver_common import NFView, SolverShape, expr, guard_atoms, mode_chain, series_stores, value_roles
+from rules.solver_common import NFView, is_check_read, SolverShape, expr, guard_atoms, mode_chain, series_stores, value_roles
 
 Q = 'fsic.core.models.BaseModel.solve_t'
 ALPHABET = {'UNSOLVED': '-', 'SOLVED': '.', 'FAILED': 'F', 'ERROR': 'E', 'SKIPPED': 'S'}
@@ -423,7 +423,7 @@ def r5_preexisting(R, sh: SolverShape) -> None:
             f"pre-existing check `{text(n.ast)}` is not `errors == 'raise' and <non-finite>`", where=sh.where(n))
     name = [x for x in nfs if x][0]
     vals = sh.lf.values_reaching(n.id, name) if name.isidentifier() else []
-    ok_val = len(vals) == 1 and vals[0][1] is not None and isinstance(vals[0][1], ast.Call) and dotted(vals[0][1].func) == 'get_check_values'
+    ok_val = len(vals) == 1 and vals[0][1] is not None and is_check_read(sh, vals[0][1])
     R.check(ok_val, sh.q, 'preexisting-values', 'the values tested are the check values read before any pass',
             f'`{name}` tested by the pre-existing check is not a fresh read of the check values', where=sh.where(n))
     rs = [r for r in sh.raises('SolutionError') if (n.id, 'T') in sh.guards_of(r.id) and not sh.in_loop(r)]
